@@ -151,8 +151,18 @@ class Ctx:
     def guarded(self, name, fn, *args):
         """Run a serial sub-check; an exception raised from inside the library under test becomes a
         violation (the sub-check is abandoned), anything else is a harness error."""
+        from vf import lattice
+
+        limit = 4 * lattice.default_cpu_limit()
         try:
-            return fn(*args)
+            with lattice.cpu_limit(limit):
+                return fn(*args)
+        except lattice.CaseTimeout:
+            self.count()
+            self.violation(f"{name}:sub-check-did-not-finish", f"sub-check {name} did not finish within {limit:g} s of CPU time "
+                           f"(it takes a small fraction of that on the unchanged tree): a call hangs or has become orders of "
+                           f"magnitude slower", {"route": "case-timeout", "sub": name})
+            return None
         except HarnessError:
             raise
         except Exception as exc:  # noqa: BLE001
@@ -412,7 +422,12 @@ def main(argv=None):
                 rec = json.load(fh)
             ctx.seed = int(rec.get("seed", seed))
             ctx.tier = rec.get("tier", tier)
-            mod.replay(ctx, rec["case"])
+            if isinstance(rec["case"], dict) and rec["case"].get("route") in ("case-timeout", "unexpected-exception"):
+                # recorded by the generic guards, which know the work item but not the check's own case format: the
+                # replay is the whole run (same tier, same seed), without touching the evidence
+                mod.run(ctx)
+            else:
+                mod.replay(ctx, rec["case"])
             return finish(ctx, mod, write=False)
         mod.run(ctx)
         return finish(ctx, mod)
